@@ -371,6 +371,28 @@ def scen_threads(rng, n):
     return out
 
 
+def scen_ties(rng, n):
+    """C15: the subscription is ended by ANOTHER thread at the very instant at which the operator's own
+    threads act (an item arrives, a timer fires, a tick is due): the orderings inside that instant are
+    what the schedules explore"""
+    out = []
+    i = 0
+    cases = [("(timeout 10 (tsrc 0 (5 (n 1))))", (5, 15)), ("(timeout 20 (tsrc 0 (5 (n 1)) (5 (n 2)) (5 c)))", (5, 10, 15)),
+             ("(timeout 10 (tsrc 0 (5 (n 1)) (5 (n 2)) (30 (n 3))))", (10, 20)),
+             ("(interval 10)", (10, 20)), ("(timer 15)", (15,)), ("(observe_on (interval 10))", (10,)),
+             ("(debounce 10 (tsrc 0 (3 (n 1)) (3 (n 2)) (30 (n 3)) (5 c)))", (3, 6, 16, 36)),
+             ("(delay 5 (tsrc 0 (1 (n 1)) (1 (n 2)) (1 c)))", (1, 6, 7)),
+             ("(timeout 30 (interval 10))", (10, 20)), ("(take 3 (timeout 30 (interval 10)))", (30,)),
+             ("(subscribe_on (interval 10))", (10,)), ("(sample (tsrc 0 (3 (n 1)) (3 (n 2)) (25 (n 3))) (interval 10))", (10, 31))]
+    def period(text):
+        ps = [int(x) for x in re.findall(r"\((?:interval|timer|timeout|debounce|delay) (\d+)", text)]
+        return max(ps) if ps else 0
+    for mk, ts in cases:
+        for t in ts:
+            out.append(("(conc C15-tie-%d (pipe (sub %s (react)) (unsub-after 0 %d)))" % (i, mk, t), (period(mk), True))); i += 1
+    return out
+
+
 def oracle_threads(payload, info):
     d = parse_pipe(payload)
     if d is None:
@@ -408,6 +430,17 @@ def scen_time(rng, n):
         out.append(("(conc C16-%d (pipe (sub (timeout %d (tsrc 0 %s)) (react))))" % (i, d, evs), ("timeout", d, gaps, False))); i += 1
     # delay: each item handed on d after it was received, order kept
     out.append(("(conc C16-%d (pipe (sub (delay 7 (tsrc 0 (10 (n 1)) (10 (n 2)) (10 (n 3)) (1 c))) (react))))" % i, ("delay", 7, [10, 10, 10]))); i += 1
+    # slow consumers: the subscriber spends `h` inside its callback for one of the items (gap + h > d while
+    # every gap < d, and h + next gap <= d so that both readings of "elapses after an item" agree)
+    for gaps, hs, d in (([5, 15], [0, 10], 20), ([5, 15, 8], [0, 10, 0], 20), ([15, 15], [10, 0], 20), ([5, 5, 18], [0, 0, 15], 20), ([8, 8], [0, 7], 10)):
+        evs = " ".join("(%d (n %d))" % (gp, k + 1) for k, gp in enumerate(gaps))
+        react = " ".join("(%d (sleep %d))" % (k, h) for k, h in enumerate(hs) if h)
+        out.append(("(conc C16-%d (pipe (sub (timeout %d (tsrc 0 %s (3 c))) (react %s))))" % (i, d, evs, react), ("timeout", d, gaps, True, hs))); i += 1
+    out.append(("(conc C16-%d (pipe (sub (delay 7 (tsrc 0 (10 (n 1)) (10 (n 2)) (10 (n 3)) (1 c))) (react (1 (sleep 4))))))" % i, ("delay", 7, [10, 10, 10], [0, 4, 0]))); i += 1
+    # a blocking operator downstream of timeout: delay(d2) keeps the source thread for d2 per item
+    for gaps, d2, d in (([5, 15], 10, 20), ([5, 12, 12], 9, 20), ([8, 8], 7, 10)):
+        evs = " ".join("(%d (n %d))" % (gp, k + 1) for k, gp in enumerate(gaps))
+        out.append(("(conc C16-%d (pipe (sub (delay %d (timeout %d (tsrc 0 %s (3 c)))) (react))))" % (i, d2, d, evs), ("timeout+delay", d, gaps, d2))); i += 1
     # debounce / sample: only items the source emitted, in order, none twice
     out.append(("(conc C16-%d (pipe (sub (debounce 10 (tsrc 0 (3 (n 1)) (3 (n 2)) (25 (n 3)) (3 (n 4)) (30 c))) (react))))" % i, ("subseq", [1, 2, 3, 4]))); i += 1
     out.append(("(conc C16-%d (pipe (sub (sample (tsrc 0 (3 (n 1)) (3 (n 2)) (25 (n 3)) (3 (n 4)) (30 c)) (interval 10)) (react)) (unsub-after 0 90)))" % i, ("subseq", [1, 2, 3, 4]))); i += 1
@@ -435,7 +468,11 @@ def oracle_time(payload, info):
         if got != [("nu", per), ("c", per)]:
             return "timer(%d) delivered %s" % (per, got)
     elif kind == "timeout":
+        # gaps[k] = time between the return of the previous emission and item k; handling[k] = time the
+        # subscriber spends inside its callback for item k (it blocks the source thread).  The timer is
+        # armed when the item has been handed on, and a successor cancels it when it arrives.
         dd, gaps, completes = info[1], info[2], info[3]
+        handling = info[4] if len(info) > 4 else [0] * len(gaps)
         t = 0
         want = []
         timed_out = False
@@ -445,18 +482,37 @@ def oracle_time(payload, info):
                 break
             t += gp
             want.append(("n%d" % (k + 1), t))
+            t += handling[k]
         if not timed_out:
             if completes and 3 <= dd:
                 want.append(("c", t + 3))
             elif not completes:
                 want.append(("e?", t + dd))
         if got != want:
-            return "timeout(%d) over gaps %s delivered %s, expected %s" % (dd, gaps, got, want)
+            return "timeout(%d) over gaps %s (handling %s) delivered %s, expected %s" % (dd, gaps, handling, got, want)
+    elif kind == "timeout+delay":
+        dd, gaps, d2 = info[1], info[2], info[3]
+        t = 0
+        want = []
+        for k, gp in enumerate(gaps):
+            t += gp + d2
+            want.append(("n%d" % (k + 1), t))
+        want.append(("c", t + 3))
+        if got != want:
+            return "delay(%d) after timeout(%d) over gaps %s delivered %s, expected %s" % (d2, dd, gaps, got, want)
     elif kind == "delay":
+        # the item is handed on d after it was received; the source thread is blocked meanwhile
         dd, gaps = info[1], info[2]
-        items = [g[0] for g in got if g[0][0] == "n"]
-        if items != ["n%d" % (k + 1) for k in range(len(gaps))]:
-            return "delay reordered or lost items: %s" % items
+        handling = info[3] if len(info) > 3 else [0] * len(gaps)
+        t = 0
+        want = []
+        for k, gp in enumerate(gaps):
+            t += gp + dd
+            want.append(("n%d" % (k + 1), t))
+            t += handling[k]
+        want.append(("c", t + 1))
+        if got != want:
+            return "delay(%d) over gaps %s (handling %s) delivered %s, expected %s" % (dd, gaps, handling, got, want)
     elif kind == "subseq":
         src = ["n%d" % v for v in info[1]]
         items = [g[0] for g in got if g[0][0] == "n"]
@@ -493,6 +549,9 @@ def scen_subjects(rng, n):
         # the last observer leaves while a new one arrives (and a producer pushes); afterwards the main thread pushes sentinels
         out.append(("(conc C12-%d (pipe %s (sub (ref a) (react)) %s (unsub-after 0 0) (sub-after 0 (ref a)) (settle 10) (hnext a 99)))" % (i, decl, drive([1, 2])), (kind, "swap", [[1, 2]], ["99"]))); i += 1
         out.append(("(conc C12-%d (pipe %s (sub (ref a) (react)) (unsub-after 0 0) (sub-after 0 (ref a)) (settle 10) (hnext a 99) (hnext a 98)))" % (i, decl), (kind, "swap", [[]], ["99", "98"]))); i += 1
+        # churn: observer 0 leaves and observer 2 arrives (two more threads) while observer 1 stays throughout
+        out.append(("(conc C12-%d (pipe %s (sub (ref a) (react)) (sub (ref a) (react)) %s %s (unsub-after 0 0) (sub-after 0 (ref a)) (settle 10) (hnext a 99)))" % (i, decl, drive([1, 2]), drive([11])), (kind, "churn", [[1, 2], [11]], ["99"]))); i += 1
+        out.append(("(conc C12-%d (pipe %s (sub (ref a) (react)) (sub (ref a) (react)) (unsub-after 0 0) (sub-after 0 (ref a)) (settle 10) (hnext a 99) (hnext a 98)))" % (i, decl), (kind, "churn", [[]], ["99", "98"]))); i += 1
     return out
 
 
@@ -503,12 +562,23 @@ def oracle_subjects(payload, info):
         return "malformed record"
     users = sorted({int(r[1:r.index(":")]) for tid, r, t in d["recs"] if re.match(r"s\d+:", r)})
     allv = [str(v) for l in lists for v in l]
+    scen_mode = mode
     for u in users or [0]:
         evs = user_events(d["recs"], u)
         m = check_contract(evs)
         if m:
             return m
         items = [e[1][1:] for e in evs if e[1][0] == "n"]
+        if scen_mode == "churn":
+            # observer 0 unsubscribes concurrently, observer 1 stays throughout, observer 2 arrives concurrently
+            # (observer 2 is judged by the `late` scenarios: here only the contract)
+            if u >= 2:
+                continue
+            mode = "unsub" if u == 0 else "stable"
+            if u == 1:
+                got_s = [x for x in items if x in info[3]]
+                if got_s != info[3]:
+                    return "%s: a subscriber present throughout missed items: got %s of %s" % (kind, got_s, info[3])
         # no duplicates of producer items, per-producer contiguous block in order
         for l in lists:
             want = [str(v) for v in l]
@@ -718,7 +788,8 @@ CONC = {
     "C12": dict(model=None, scen=scen_subjects, oracle=oracle_subjects, corr="Conc.Subject / Conc.Replay / Conc.Behavior vs src/subjects/*.rs", info=True),
     "C09": dict(model=None, scen=scen_handoff, oracle=oracle_handoff, corr="Conc.Handoff vs src/operators/observe_on.rs, subscribe_on.rs", info=True),
     "C11": dict(model=None, scen=scen_merge, oracle=oracle_merge, corr="Conc.Sctl / Conc.TakeAmbZip vs stream_controller.rs, merge/zip/amb/take", info=True),
-    "C15": dict(model=None, scen=scen_threads, oracle=oracle_threads, corr="Conc.Timed / Conc.Queue vs scheduler-based operators", info=True),
+    "C15": dict(model=None, scen=scen_threads, oracle=oracle_threads, corr="Conc.Timed / Conc.Queue vs scheduler-based operators", info=True,
+                more=[dict(model=None, scen=scen_ties, oracle=oracle_threads, info=True, iters=(1500, 12000))]),
     "C16": dict(model=None, scen=scen_time, oracle=oracle_time, corr="Conc.Timed vs interval/timer/delay/timeout/debounce/sample", info=True),
 }
 
@@ -797,7 +868,8 @@ def run_conc(prop, tier, seed, jobs, write_evidence, write_replay, load_known):
         gs = g["scen"](rng, 60 if thorough else 12)
         ginfo = {x[0].split()[1]: x[1] for x in gs} if g.get("info") else {}
         gs = [x[0] for x in gs] if g.get("info") else gs
-        glines = run_scenarios(gs, seed, 1500 if thorough else 120, "mixed", jobs)
+        gq, gt = g.get("iters", (120, 1500))
+        glines = run_scenarios(gs, seed, gt if thorough else gq, "mixed", jobs)
         extra_groups.append((g, gs, ginfo, glines))
         lines = lines + glines
         scen = scen + gs
